@@ -170,6 +170,42 @@ def run(ctx):
     for t, opt in want.items():
         if opt not in params:
             ctx.fail(f"create_nxgraph has no parameter {opt}")
+    # node set: every bus that no edge touched is added; the cheap guard counts the same set it adds from
+    R7 = "NODE-SET"
+    ctx.rule(R7, "create_nxgraph adds every bus of net.bus.index without an edge; the guard that skips this step compares the node count "
+                 "with the size of that same index (out-of-service buses that are nodes at that moment are removed only afterwards); a "
+                 "trafo3w edge is interrupted only by an open switch at the SAME (transformer, bus) pair")
+    found = False
+    for node in ast.walk(fg.node):
+        if isinstance(node, ast.If) and "mg.nodes()" in ast.unparse(node.test) and isinstance(node.test, ast.Compare):
+            body = ast.unparse(node)
+            if "add_node" not in body and "add_vertex" not in body:
+                continue
+            found = True
+            t = ast.unparse(node.test)
+            ok = "in_service" not in t and ("net.bus.index" in t or "len(net.bus)" in t) and "set(net.bus.index) - set(mg.nodes())" in body
+            ctx.ob(R7, f"{CG}::create_nxgraph::add-untouched-buses", ok,
+                   "buses without any edge are added as isolated nodes" if ok else
+                   f"guard `{t}` / added set differ from net.bus.index: an in-service bus without edges is not added while out-of-service "
+                   "buses still are nodes - it is missing from the graph and from every component", fg.loc(node))
+    if not found:
+        ctx.ob(R7, f"{CG}::create_nxgraph::add-untouched-buses", "set(net.bus.index) - set(mg.nodes())" in ast.unparse(fg.node),
+               "buses without any edge are added as isolated nodes", fg.loc())
+    # trafo3w: open switches are matched as (index, bus) pairs
+    pair = [n for n in ast.walk(fg.node) if isinstance(n, ast.Assign) and ast.unparse(n.targets[0]) == "open_switch" and "INDEX" in ast.unparse(n.value)]
+    k = 0
+    for n in pair:
+        v = ast.unparse(n.value).replace(" ", "")
+        if "t3" not in ast.unparse(fg.node)[:0] and "BUS" in v:
+            k += 1
+            isins = [c for c in ast.walk(n.value) if isinstance(c, ast.Call) and ast.unparse(c.func).endswith("isin")]
+            ok = len(isins) == 1 and "INDEX" in ast.unparse(isins[0].args[0]) and "BUS" in ast.unparse(isins[0].args[0])
+            ctx.ob(R7, f"{CG}::create_nxgraph::trafo3w-open-switch-pair#{k}", ok,
+                   "open trafo3w switches matched as one (index, bus) key" if ok else
+                   f"`{v[:110]}` tests index and bus independently: a transformer with an open switch at another bus loses the edges at a bus where "
+                   "another transformer's switch is open", fg.loc(n))
+    if k < 1:
+        ctx.fail("create_nxgraph: matching of open trafo3w switches not found")
 
 
 def variants(repo):
@@ -177,6 +213,8 @@ def variants(repo):
     g = "pandapower/topology/graph_searches.py"
     V = Variant
     return [
+        V("untouched buses counted against in-service buses", p, replace_once("if len(mg.nodes()) < len(net.bus.index):", "if len(mg.nodes()) < np.count_nonzero(net.bus.in_service.values):"), "NODE-SET"),
+        V("trafo3w open switch matched by index and bus separately", p, replace_once("open_switch = np.isin(indices[:, INDEX] + indices[:, BUS] * 1j,\n                                          open_trafo3w)", "open_switch = np.isin(indices[:, INDEX], open_trafo3w_index) & np.isin(indices[:, BUS], open_trafo3w_buses)"), "NODE-SET"),
         V("trafo block uses line code", p, in_function("create_nxgraph", replace_once('mask = (net.switch.et.values == "t") & open_sw', 'mask = (net.switch.et.values == "l") & open_sw')), "SWITCH-CODE"),
         V("line mask ignores switches", p, in_function("create_nxgraph", replace_once("                in_service &= ~open_lines_mask\n", "                pass\n")), "line:switches"),
         V("open bus-bus switches are edges", p, in_function("create_nxgraph", replace_once('in_service = (switch.et.values == "b") & ~open_sw', 'in_service = (switch.et.values == "b")')), "switch:closed"),
